@@ -13,7 +13,10 @@ META = dict(
          "receives the faulty bytes, the outer two send two valid keep-alive requests each; serviceAll is called repeatedly.  Required: "
          "serviceAll never raises, the healthy connections receive exactly their correct responses in both rounds, and the faulty connection "
          "ends up answered, still waiting, or closed and removed.  Client: a real Patron sends a request to a harness-played server that answers "
-         "with the faulty bytes; serviceAll must never raise.  Oversize family: every line-like element of every seed (request / status line, "
+         "with the faulty bytes; serviceAll must never raise.  Charset family: a valid JSON message whose Content-Type charset is every single-byte mutation of 'utf-8' "
+         "or an unknown / non-text / empty / quoted codec name, for a json content type and for a dictable receiver, delivered to the Patron and "
+         "to the middle connection of a three-connection Porter (the two places that call dictify); the service call must never raise and the "
+         "Porter's healthy connections must be answered.  Oversize family: every line-like element of every seed (request / status line, "
          "each header line, each chunk-size line via leading zeros, a chunk extension, each trailer line, each event-stream line) is grown to "
          "MAX_LINE_SIZE-1, MAX_LINE_SIZE, MAX_LINE_SIZE+1 and 2*MAX_LINE_SIZE bytes (limits read from httping) and delivered in one receive and "
          "in two receives cut just before the line's end-of-line; the header count is raised to MAX_HEADERS-1, MAX_HEADERS, MAX_HEADERS+1 and "
@@ -238,13 +241,14 @@ def server_exec(FSM, data, close_after):
 
 # --------------------------------------------------------------------------- client side
 
-def client_exec(FSM, data, close_after):
+def client_exec(FSM, data, close_after, dictable=None):
     from ioflo.aio.http import clienting
     fn = net.FakeNet()
     FSM.net = fn
     ck = net.clock()
     lst = fn.listen(FAKE_SERVER, name="srv")
-    patron = clienting.Patron(hostname=FAKE_SERVER[0], port=FAKE_SERVER[1], store=ck, method="GET", path="/p")
+    patron = clienting.Patron(hostname=FAKE_SERVER[0], port=FAKE_SERVER[1], store=ck, method="GET", path="/p",
+                              dictable=dictable)
     patron.open()
     patron.request(method="GET", path="/p")
     try:
@@ -400,6 +404,103 @@ def work_oversize(item):
     return part
 
 
+# --------------------------------------------------------------------------- charset family (dictify)
+
+JSON_BODY = b'{"a": "\xc3\xa9", "n": 1}'
+PORTER_ADDR = ("127.0.0.1", 8082)
+GOOD_JSON = b'POST /g HTTP/1.1\r\nContent-Type: application/json; charset=utf-8\r\nContent-Length: 8\r\n\r\n{"g": 1}'
+
+
+def charsets():
+    """Every single-byte mutation of 'utf-8' (the C32 mutation kinds) plus unknown / non-text /
+    empty / quoted codec names.  Ordered, deduplicated, latin-1 bytes."""
+    base = b"utf-8"
+    out = []
+    for kind in KINDS:
+        if kind.startswith("trunc"):
+            continue
+        for desc, data, close_after in faults(base, kind):
+            out.append(("utf-8 " + desc, data))
+    for name in (b"", b"utf-9", b"x", b"unknown-charset", b"hex", b"base64", b"zlib", b"rot13", b"undefined", b"idna",
+                 b"punycode", b"unicode_escape", b'"utf-8"', b'"utf-9"', b"utf-8 ", b" utf-8", b"utf-8;q=1", b"utf-16", b"utf-32",
+                 b"ascii", b"cp037", b"u" * 300):
+        out.append(("name %s" % (name[:20].decode("latin-1") + ("..." if len(name) > 20 else "")), name))
+    seen, res = set(), []
+    for d, v in out:
+        if v not in seen and v != base:
+            seen.add(v)
+            res.append((d, v))
+    return res
+
+
+def porter_exec(FSM, data, dictable):
+    """Server side where dictify runs: a real Porter (echo Stewards) with three connections."""
+    from ioflo.aio.http import serving
+    fn = net.FakeNet()
+    FSM.net = fn
+    ck = net.clock()
+    porter = serving.Porter(store=ck, ha=("", PORTER_ADDR[1]), dictable=dictable)
+    if not porter.servant.reopen():
+        raise core.BrokenCheck("Porter servant failed to open on the fake net")
+    socks = []
+    for name in ("A", "K", "C"):
+        s = fn.socket(name=name)
+        if s.connect_ex(PORTER_ADDR) != 0:
+            raise core.BrokenCheck("fake connect to Porter failed")
+        socks.append(s)
+    a, k, c = socks
+    kgot = []
+    for rnd in (0, 1):
+        a.send(GOOD_JSON)
+        c.send(GOOD_JSON)
+        if rnd == 0:
+            k.send(data)
+        for i in range(4):
+            try:
+                porter.serviceAll()
+            except Exception as ex:
+                return "raises", ("Porter|raises|%s" % exc_sig(ex), "Porter.serviceAll raised %r (round %d, call %d)" % (ex, rnd + 1, i + 1))
+            ck.advance(0.05)
+        for who, sock in (("A", a), ("C", c)):
+            got, left, eof = read_responses(sock)
+            if eof or left or len(got) != 1 or not got[0][0].startswith(b"HTTP/1.1 200") or b'"data":{"g":1}' not in got[0][1]:
+                return "disturbed", ("Porter|healthy-connection-disturbed|%s-round%d" % (who, rnd + 1),
+                                     "healthy connection %s, request %d: expected one 200 echo, got %r leftover %r eof=%s"
+                                     % (who, rnd + 1, got, left[:60], eof))
+        got, left, eof = read_responses(k)
+        kgot += got
+    if kgot:
+        return ("answered-data-null" if b'"data":null' in kgot[0][1] else "answered-data-decoded"), None
+    return ("closed" if eof else "waiting"), None
+
+
+def work_charset(item):
+    side, variant = item
+    FSM = setup()
+    part = core.Part()
+    ctype = b"application/json" if variant == "json" else b"text/plain"
+    dictable = None if variant == "json" else True
+    with core.watchdog(600):
+        for desc, cs in charsets():
+            head = b"Content-Type: " + ctype + b"; charset=" + cs + b"\r\nContent-Length: " + str(len(JSON_BODY)).encode() + b"\r\n\r\n"
+            if side == "client":
+                data = b"HTTP/1.1 200 OK\r\n" + head + JSON_BODY
+                out, viol = client_exec(FSM, data, False, dictable=dictable)
+            else:
+                data = b"POST /k HTTP/1.1\r\n" + head + JSON_BODY
+                out, viol = porter_exec(FSM, data, dictable)
+            fault = "charset=%s (%s, %s)" % (desc, "json content type" if variant == "json" else "dictable, text/plain", side)
+            part.evaluations += 1
+            part.nontrivial(repr((side, variant, cs)))
+            part.outcome("%s:charset:%s" % (side, out))
+            if viol is not None:
+                group, what = viol
+                part.violation(group, fault, "%s receives %r: %s" % ("Patron" if side == "client" else "Porter connection K", data, what),
+                               dict(side=side, family="charset", variant=variant, charset=cs, bytes=data, what=what))
+        part.sample(dict(side=side, family="charset", variant=variant, charset=cs, bytes=data, outcome=out))
+    return part
+
+
 # --------------------------------------------------------------------------- driver
 
 _FSM = []
@@ -453,6 +554,8 @@ def setup():
 def work(item):
     if item[0].endswith("-oversize"):
         return work_oversize((item[0].split("-")[0], item[1]))
+    if item[0].endswith("-charset"):
+        return work_charset((item[0].split("-")[0], item[1]))
     side, si, kind = item
     FSM = setup()
     part = core.Part()
@@ -502,6 +605,7 @@ def run():
     items += [("client", i, k) for i in range(len(RSP_SEEDS)) for k in KINDS]
     # oversize payloads are 64-128 KiB each: dispatch them first, merge them last
     over = [("server-oversize", i, None) for i in range(len(REQ_SEEDS))] + [("client-oversize", i, None) for i in range(len(RSP_SEEDS))]
+    items += [(side + "-charset", variant, None) for side in ("client", "server") for variant in ("json", "dictable")]
     res = core.pmap(work, over + items)
     ck.merge(res[len(over):] + res[:len(over)])
     ck.coverage_extra = dict(request_seeds=len(REQ_SEEDS), response_seeds=len(RSP_SEEDS), fault_kinds=KINDS,
@@ -517,6 +621,8 @@ def run():
         "name resolution is a double: IP literals resolve to themselves, every other host name raises socket.gaierror(EAI_NONAME)",
         "oversize cases: padding is 'a' in a value ('0' in front of a chunk size, ';x=aaa' as chunk extension); the second receive of a two-piece "
         "delivery arrives two service passes after the first; a line of exactly MAX_LINE_SIZE bytes may be served or rejected, only the oracle above is judged",
+        "charset family: whether the body is decoded, left undecoded (data None) or the message rejected is not judged; only 'the service call "
+        "never raises' and 'the Porter's other connections get their echo' are",
         "the store clock advances 0.05 s per service call, far below the 5 s connection timeout, so no time-out closes interfere",
     ]
     return ck.finish(
